@@ -173,6 +173,11 @@ func RoutePatternMatch(path, pattern string, cfg ...Config) bool {
 	parser.parseRoute(string(patternPretty))
 	defer routerParserPool.Put(parser)
 
+	// such a pattern cannot be registered
+	if len(parser.params) > maxParams {
+		return false
+	}
+
 	if string(patternPretty) == "/" && path == "/" {
 		return true
 		// '*' wildcard matches any path
